@@ -4,9 +4,11 @@ import (
 	"encoding/json"
 	"fmt"
 	"os"
+	"os/exec"
 	"path/filepath"
 	"sort"
 	"strconv"
+	"strings"
 )
 
 func usage() {
@@ -120,6 +122,23 @@ func replayMain(path string) int {
 	}
 	if os.Getenv("VERIF_IGNORE_KNOWN") != "" {
 		ignoreKnown = true
+	}
+	if (strings.Contains(tr.Sig, ":fatal:") || strings.Contains(tr.Sig, ":hang:")) && os.Getenv("VERIF_REPLAY_CHILD") == "" {
+		// a trace that kills the process is replayed in a child
+		self, _ := os.Executable()
+		cmd := exec.Command(self, "replay", path)
+		cmd.Env = append(os.Environ(), "VERIF_REPLAY_CHILD=1")
+		out, _ := cmd.CombinedOutput()
+		code := cmd.ProcessState.ExitCode()
+		fatal := strings.Contains(string(out), "fatal error:")
+		hang := code == 3
+		if (strings.Contains(tr.Sig, ":fatal:") && fatal) || (strings.Contains(tr.Sig, ":hang:") && hang) {
+			fmt.Printf("replay: the process died as recorded (%s)\n%s\n", tr.Sig, tail(string(out), 1200))
+			fmt.Printf("VIOLATION property=%s replay=%s\n", tr.Prop, path)
+			return 1
+		}
+		fmt.Print(string(out))
+		return code
 	}
 	startWatchdog(hangLimit())
 	busy.Store(true)
